@@ -49,7 +49,8 @@ def run_plain(job):
     from . import drivers
 
     np.random.seed(job["seed"])
-    out = {"job": job, "raised": None}
+    out = {"job": job, "raised": None, "all_inf_batch": False}
+    s = None
     try:
         s, c = drivers.build_sampler(job["conf"], None, out_dir=None)
         if job.get("pre_draws"):
@@ -58,6 +59,10 @@ def run_plain(job):
         out.update(summarize(s))
     except Exception as ex:
         out["raised"] = repr(ex)
+        try:  # the known all-zero-likelihood prior batch (C11 finding) makes everything downstream NaN
+            out["all_inf_batch"] = any(not np.any(np.isfinite(b)) for b in s.state._history["logl"])
+        except Exception:
+            pass
         out.update({"iters": [], "weights": [], "evidence": float("nan")})
     return out
 
